@@ -150,6 +150,15 @@ def configs(tier):
         if uses(b1, ('b', 0)):
             out.append(dict(srcs=('bool', 'bool', 'cnt'),
                             blocks=(('cmp', (('s', 2, 'obj'),)), b1), fb=None))
+    # T: values that are equal but of different type (0 / 0.0 / False ...) travelling through
+    # function blocks into a consumer that tells them apart; local consistency oracle
+    for net in ('clamp', 'sum', 'sum3'):
+        out.append(dict(typed=net))
+    # R: a change ripples through n stages CBlock => (event) => SBlock within one burst while a
+    # wide adder and the later stages are legitimately re-evaluated after every stage
+    for n in (2, 3, 4, 5, 6):
+        for order in ('asc', 'desc', 'stride'):
+            out.append(dict(ripple=(n, order)))
     # L: large networks (one change makes the simulator evaluate tens of blocks in one go)
     for shape in ('chain', 'fan', 'ladder', 'tree'):
         for n in ((5, 17, 33, 70, 130, 300) if tier == 'quick' else (5, 16, 17, 18, 33, 49, 70, 101, 130, 300, 1100)):
@@ -485,6 +494,140 @@ def cfg_key(cfg):
     return (cfg['srcs'], cfg['blocks'], cfg['fb'])
 
 
+def run_typed(cfg, acc):
+    """
+    p computes a number from the sources, q = repr(p), r = [p] (unpacked group).  Oracle: every
+    block's output equals its function applied to the CURRENT outputs of its input blocks
+    (compared with ==; q and r compare the representation, i.e. they tell 0 from 0.0).
+    """
+    net = cfg['typed']
+    viol = []
+    doms = {'clamp': [(-1, 0, 1, 0.0, True, -2.5)],
+            'sum': [(0, 1, 2), (0, -1.0, 1.0, -2)],
+            'sum3': [(0, 1), (0, -1.0), (0.0, 1, False)]}[net]
+    fn = {'clamp': lambda a: max(a, 0.0), 'sum': lambda a, b: a + b, 'sum3': lambda a, b, c: a + b + c}[net]
+    first, plan = nets.all_bursts(doms)
+    for perm in itertools.permutations(range(3)):
+        with Sim() as sim:
+            srcs = [edzed.Input(f's{i}', initdef=v) for i, v in enumerate(first)]
+            p = edzed.FuncBlock('p', func=fn).connect(*srcs)
+            q = edzed.FuncBlock('q', func=repr).connect(p)
+            r = edzed.FuncBlock('r', func=lambda g: [repr(x) for x in g], unpack=False).connect(p, srcs[0])
+            nets.set_ranks([p, q, r], perm)
+            senders = [edzed.ExtEvent(x, 'put') for x in srcs]
+
+            def check(label):
+                exp_p = fn(*[x.output for x in srcs])
+                ok = True
+                if not p.output == exp_p:
+                    viol.append(('output-mismatch:typed', f"{net} {label}: p outputs {p.output!r}, its function gives {exp_p!r}"))
+                    ok = False
+                if q.output != repr(p.output):
+                    viol.append(('output-mismatch:typed',
+                                 f"{net} {label}: q = repr(p) outputs {q.output!r} while p outputs {p.output!r}"))
+                    ok = False
+                exp_r = [repr(p.output), repr(srcs[0].output)]
+                if r.output != exp_r:
+                    viol.append(('output-mismatch:typed',
+                                 f"{net} {label}: r outputs {r.output!r}, its inputs give {exp_r!r}"))
+                    ok = False
+                return ok
+
+            async def driver():
+                task = asyncio.create_task(sim.circuit.run_forever())
+                try:
+                    await sim.circuit.wait_init()
+                except Exception as err:    # pylint: disable=broad-except
+                    viol.append(('start-failed', repr(err)))
+                    await stop(sim.circuit)
+                    return
+                check('after wait_init()')
+                prev = acc.state(('typed', net, first))
+                for frm, burst in plan:
+                    vec = list(frm)
+                    for i, v in burst:
+                        senders[i].send(v)
+                        vec[i] = v
+                    await sim.loop.idle()
+                    acc.count('bursts')
+                    if sim.circuit.error is not None:
+                        viol.append(('simulation-died', repr(sim.circuit.error)))
+                        break
+                    if not check(f"rank order {perm}, after burst {burst} from {frm}"):
+                        break
+                    st = acc.state(('typed', net, tuple(repr(x.output) for x in srcs), repr(p.output)))
+                    acc.transition(prev, repr(burst), st)
+                    acc.outcome(('typed', net, frm, tuple(burst), repr(p.output), q.output))
+                    prev = st
+                await stop(sim.circuit)
+                del task
+            sim.run(driver())
+        acc.execs += 1
+        if viol:
+            break
+    return viol
+
+
+def run_ripple(cfg, acc):
+    """s0 -> f1 =put=> s1 -> f2 =put=> s2 ... ; x = sum(s1..sn); f_k (k >= 2) also reads x and f_(k-1)."""
+    n, order = cfg['ripple']
+    viol = []
+    with Sim() as sim:
+        ss = [edzed.Input(f's{k}', initdef=0) for k in range(n + 1)]
+        x = edzed.FuncBlock('x', func=lambda *v: sum(v)).connect(*ss[1:])
+        fs = [None, edzed.FuncBlock('f1', func=lambda a, *_o: a, on_output=edzed.Event(ss[1])).connect(ss[0])]
+        for k in range(2, n + 1):
+            fs.append(edzed.FuncBlock(f'f{k}', func=lambda a, *_o: a,
+                                      on_output=edzed.Event(ss[k])).connect(ss[k - 1], x, fs[k - 1]))
+        cbs = [x] + fs[1:]
+        m = len(cbs)
+        perm = {'asc': list(range(m)), 'desc': list(range(m - 1, -1, -1)),
+                'stride': sorted(range(m), key=lambda i: (i * 3) % m if m % 3 else (i * 2) % m)}[order]
+        nets.set_ranks(cbs, perm)
+
+        def check(label, value):
+            if x.output != sum(b.output for b in ss[1:]):
+                viol.append(('output-mismatch:ripple', f"n={n} {order} {label}: x outputs {x.output!r}, its "
+                             f"inputs {[b.output for b in ss[1:]]}"))
+            for k in range(1, n + 1):
+                if fs[k].output != ss[k - 1].output:
+                    viol.append(('output-mismatch:ripple', f"n={n} {order} {label}: f{k} outputs {fs[k].output!r}, "
+                                 f"its input s{k - 1} outputs {ss[k - 1].output!r}"))
+                    break
+            if value is not None and x.output != n * value:
+                viol.append(('output-mismatch:ripple', f"n={n} {order} {label}: x outputs {x.output!r}, expected {n * value}"))
+            return not viol
+
+        async def driver():
+            task = asyncio.create_task(sim.circuit.run_forever())
+            try:
+                await sim.circuit.wait_init()
+            except Exception as err:    # pylint: disable=broad-except
+                viol.append(('start-failed', repr(err)))
+                await stop(sim.circuit)
+                return
+            check('after wait_init()', 0)
+            prev = acc.state(('ripple', n, order, 0))
+            for value in (1, 0, 5, 5.0, 2):
+                edzed.ExtEvent(ss[0]).send(value)
+                await sim.loop.idle()
+                acc.count('bursts')
+                if sim.circuit.error is not None or task.done():
+                    viol.append(('simulation-died', f"ripple n={n} {order}, s0={value}: {sim.circuit.error!r}"))
+                    break
+                if not check(f"s0={value}", value):
+                    break
+                st = acc.state(('ripple', n, order, value))
+                acc.transition(prev, repr(value), st)
+                prev = st
+            await stop(sim.circuit)
+            del task
+        sim.run(driver())
+    acc.execs += 1
+    acc.outcome(('ripple', n, order, tuple(v[0] for v in viol)))
+    return viol
+
+
 def run_large(cfg, acc):
     """
     chain: b[i] = not b[i-1];  fan: b[i] = xor(a, b) / and(a, b) / or(a, b) by i % 3;
@@ -582,6 +725,10 @@ def run_config(cfg):
     acc = Acc()
     if 'loopback' in cfg:
         return run_loopback(cfg, acc)
+    if 'typed' in cfg or 'ripple' in cfg:
+        for sig, msg in (run_typed if 'typed' in cfg else run_ripple)(cfg, acc)[:2]:
+            acc.violation(f"C01:{sig}", msg, cfg=cfg)
+        return acc
     if 'large' in cfg:
         for sig, msg in run_large(cfg, acc)[:2]:
             acc.violation(f"C01:{sig}", msg, cfg=cfg)
